@@ -286,7 +286,7 @@ pub fn prop_c02() -> Prop {
                 bounds: "every shape of <=7 elements (quick) / <=9 (thorough) + 21 larger hand-written shapes (incl. already obscured children, repeated content, node-subject-node) + shapes with known values <=5 + every shape of <=4 (5) elements that already contains elided / encrypted / compressed elements x set / array / single-target entry points (with and without action) x target set = every subset of the shape's distinct element digests when it has <=7 (9) of them, else every set of <=2 (3) digests, optionally plus an absent digest x {removing, revealing} x {Elide, Encrypt, Compress} x every digest order.",
                 api: API },
             Scenario { name: "two_pass", f: c02_two_pass, thorough_only: false,
-                bounds: "every shape of <=5 elements + 4 nested shapes (quick) / <=7 + 21 larger shapes (thorough) x first pass: any single position obscured with any action x second pass over the result: every target set of <=2 digests x {removing, revealing} x 3 actions x every digest order",
+                bounds: "every shape of <=5 elements + 4 nested shapes (quick) / <=7 + 30 hand-written shapes (thorough) x first pass: any single position obscured with any action x second pass over the result: every target set of <=2 digests x {removing, revealing} x 3 actions x every digest order",
                 api: API },
             Scenario { name: "whole", f: c02_whole, thorough_only: false,
                 bounds: "every shape of <=7 (9) elements with known values + larger shapes, as built, with any two of its assertions first hidden in place (each by elide / encrypt / compress), or with one of >=3 assertions removed first x {elide, encrypt_subject, encrypt/decrypt, compress, compress_subject} x every digest order",
